@@ -2,6 +2,7 @@ package c05
 
 import (
 	"fmt"
+	feepkg "github.com/idena-network/idena-go/blockchain/fee"
 	"math/big"
 	"testing"
 	"time"
@@ -72,6 +73,8 @@ var weightedTypes = func() []types.TxType {
 	for i := 0; i < 4; i++ {
 		res = append(res, types.KillInviteeTx, types.KillDelegatorTx)
 	}
+	// activations move what the signer owns to another address: drawn more often as well
+	res = append(res, types.ActivationTx, types.ActivationTx, types.ActivationTx)
 	return append(res, types.KillTx, types.UndelegateTx, types.CallContractTx, types.TerminateContractTx)
 }()
 
@@ -85,8 +88,11 @@ func TestOnlySignerPays(t *testing.T) {
 			for i := range p.States {
 				switch {
 				case i > 0 && i%4 == 1:
-					p.States[i] = rapid.SampledFrom([]state.IdentityState{state.Candidate, state.Invite}).Draw(t, "looseInvitee")
+					p.States[i] = rapid.SampledFrom([]state.IdentityState{state.Invite, state.Candidate, state.Invite}).Draw(t, "looseInvitee")
 					p.Stakes[i] = sim.Dna(int64(5 + i))
+					if p.Balances[i].Sign() == 0 {
+						p.Balances[i] = sim.Dna(int64(30 + i)) // an invitation that came with coins
+					}
 				case i > 0 && i%4 == 2 && p.States[i] == state.Undefined:
 					p.States[i] = state.Verified
 					p.Stakes[i] = sim.Dna(int64(20 + i))
@@ -136,9 +142,53 @@ func TestOnlySignerPays(t *testing.T) {
 				if rapid.IntRange(0, 2).Draw(t, "craftedPair") == 0 && info.Sender != nil && info.Hostile == "" {
 					sequentialValidity(t, w, with, tx, info)
 				}
+				// the signer may have spent (nearly) everything it owns earlier in the same block: a payment of its own
+				// with the nonce of tx goes first, tx follows with the next nonce and a drawn max fee
+				var drain *types.Transaction
+				if info.Sender != nil && info.Hostile == "" && rapid.IntRange(0, 3).Draw(t, "signerDrainedFirst") <= map[bool]int{false: 0, true: 2}[tx.Type == types.ActivationTx] {
+					ps := p.ReadState()
+					bal := ps.State.GetBalance(info.Sender.Addr)
+					probe := &types.Transaction{Type: types.SendTx, AccountNonce: tx.AccountNonce, Epoch: tx.Epoch, To: &common.Address{1}, Amount: bal, MaxFee: bal}
+					netSize := ps.ValidatorsCache.NetworkSize()
+					fee := feepkg.CalculateFee(netSize, ps.State.FeePerGas(), probe)
+					if min := feepkg.CalculateFee(netSize, feepkg.GetFeePerGasForNetwork(netSize), probe); min.Cmp(fee) > 0 {
+						fee = min
+					}
+					fee = new(big.Int).Mul(fee, big.NewInt(int64(rapid.IntRange(2, 4).Draw(t, "drainFeeFactor"))))
+					if left := new(big.Int).Sub(bal, fee); left.Sign() > 0 {
+						to := w.Actors[rapid.IntRange(0, len(w.Actors)-1).Draw(t, "drainTo")].Addr
+						keep := big.NewInt(int64(rapid.SampledFrom([]int{0, 0, 1, 1000}).Draw(t, "drainKeeps")))
+						if keep.Cmp(left) < 0 {
+							left.Sub(left, keep)
+						}
+						drain, _ = types.SignTx(&types.Transaction{Type: types.SendTx, AccountNonce: tx.AccountNonce, Epoch: tx.Epoch, To: &to, Amount: left, MaxFee: fee}, info.Sender.Key)
+						second := &types.Transaction{Type: tx.Type, AccountNonce: tx.AccountNonce + 1, Epoch: tx.Epoch, To: tx.To, Amount: tx.Amount, Tips: tx.Tips, Payload: tx.Payload,
+							MaxFee: rapid.SampledFrom([]*big.Int{bal, sim.Dna(1), new(big.Int).Rsh(bal, 1), tx.MaxFee, big.NewInt(0)}).Draw(t, "maxFeeAfterDrain")}
+						tx, _ = types.SignTx(second, info.Sender.Key)
+						evid.Count("tx.signer_drained_first")
+					}
+				}
 				_, unsignedErr := types.Sender(sim.WireCopyTx(tx))
 				if unsignedErr != nil {
 					evid.Count("tx.unrecoverable_signature")
+				}
+				// sender recovery: the signer the node attributes a received transaction to is the address whose key signed
+				// exactly this content
+				if got, err := types.Sender(sim.WireCopyTx(tx)); err == nil {
+					if want, werr := sim.TrueSigner(tx); werr != nil || got != want {
+						t.Fatalf("the node attributes a %s tx (hostile=%q) to %s, but its signature over this content recovers to %s (%v): the funds of somebody who did not sign it are at stake", sim.TxTypeNames[tx.Type], info.Hostile, w.Name(got), w.Name(want), werr)
+					}
+				}
+				if info.Hostile == "grafted-signature" {
+					evid.Count("tx.grafted_signature")
+				}
+				if drain != nil {
+					if err := with.Pool.AddExternalTxs(validation.MempoolTx, drain); err != nil {
+						evid.Count("tx.drain_refused_by_pool")
+						evid.Count("tx.drain_refused." + err.Error())
+						continue
+					}
+					without.Pool.AddExternalTxs(validation.MempoolTx, sim.WireCopyTx(drain))
 				}
 				if err := with.Pool.AddExternalTxs(validation.MempoolTx, tx); err != nil {
 					evid.Count("tx.refused_by_pool")
@@ -175,6 +225,9 @@ func TestOnlySignerPays(t *testing.T) {
 				if len(b1.Body.Transactions) > 1 {
 					evid.Count("block.multi_tx")
 				}
+				if drain != nil {
+					evid.Count("block.tx_after_own_drain." + sim.TxTypeNames[tx.Type])
+				}
 				b2 := without.Propose().Block
 				if b2.Header.Flags().HasFlag(types.ValidationFinished) {
 					// epoch rewards are shares of a pool: any stake change shifts everybody's share; outside the claim
@@ -182,7 +235,7 @@ func TestOnlySignerPays(t *testing.T) {
 					continue
 				}
 				pre := with.ReadState()
-				signer, _ := types.Sender(tx)
+				signer, _ := sim.TrueSigner(tx)
 				if err := with.AddBlock(b1); err != nil {
 					t.Fatalf("block with the tx refused: %v", err)
 				}
@@ -193,7 +246,7 @@ func TestOnlySignerPays(t *testing.T) {
 				// addresses allowed to lose value
 				allowed := map[common.Address]string{}
 				for _, x := range b1.Body.Transactions {
-					xs, _ := types.Sender(x)
+					xs, _ := sim.TrueSigner(x)
 					allowed[xs] = "signer"
 					if x.To != nil {
 						switch x.Type {
